@@ -252,14 +252,14 @@ func (d *PathDecoder) decodeReferenceTargetsForBody(body hcl.Body, parentBlock *
 			})
 		}
 
-		sort.Sort(bodyRef.NestedTargets)
+		sort.Stable(bodyRef.NestedTargets)
 	}
 
 	for _, tb := range bodySchema.TargetableAs {
 		refs = append(refs, decodeTargetableBody(body, parentBlock, tb))
 	}
 
-	sort.Sort(refs)
+	sort.Stable(refs)
 
 	return refs
 }
@@ -506,7 +506,7 @@ func (d *PathDecoder) collectInferredReferenceTargetsForBody(addr lang.Address, 
 		blockRef.NestedTargets = d.collectInferredReferenceTargetsForBody(
 			blockAddr, bAddrSchema, blk.Body, bCollection.Schema.Body, selfRefBodyRangePtr, blockRef.LocalAddr)
 
-		sort.Sort(blockRef.NestedTargets)
+		sort.Stable(blockRef.NestedTargets)
 		refs = append(refs, blockRef)
 	}
 
@@ -551,7 +551,7 @@ func (d *PathDecoder) collectInferredReferenceTargetsForBody(addr lang.Address, 
 			elemRef.NestedTargets = d.collectInferredReferenceTargetsForBody(
 				elemAddr, bAddrSchema, b.Body, bCollection.Schema.Body, selfRefBodyRangePtr, elemRef.LocalAddr)
 
-			sort.Sort(elemRef.NestedTargets)
+			sort.Stable(elemRef.NestedTargets)
 			blockRef.NestedTargets = append(blockRef.NestedTargets, elemRef)
 
 			if i == 0 {
@@ -655,7 +655,7 @@ func (d *PathDecoder) collectInferredReferenceTargetsForBody(addr lang.Address, 
 
 			elemRef.NestedTargets = d.collectInferredReferenceTargetsForBody(
 				elemAddr, bAddrSchema, b.Body, bCollection.Schema.Body, selfRefBodyRangePtr, elemRef.LocalAddr)
-			sort.Sort(elemRef.NestedTargets)
+			sort.Stable(elemRef.NestedTargets)
 			blockRef.NestedTargets = append(blockRef.NestedTargets, elemRef)
 
 			if i == 0 {
